@@ -401,4 +401,87 @@ theorem install_authentic_stream (G : Gz) (H : Hashes) (hloc : G.Local) (hx : He
       rw [hr] at hr2; cases hr2
       exact hpart
 
+
+/-! ### witnesses: the hypotheses are satisfiable; what a larger read, and the pinned end of the loop, do -/
+
+/-- a toy gzip: a member is `7, x, y` and decompresses to `x, y`; a toy tar: a section that starts with `1` has a
+first header `.SIGN.k`, one that starts with `6` holds a regular file whose record does not match -/
+def toyG : Gz :=
+  { member := fun bs => match bs with
+      | 7 :: x :: y :: _ => some (3, [x, y])
+      | _ => none,
+    firstName := fun d => match d with
+      | 1 :: _ => some ".SIGN.k".toList
+      | _ :: _ => some ".PKGINFO".toList
+      | [] => none,
+    untar := fun t => match t with
+      | 6 :: _ => some [{ name := "f".toList, kind := .reg, body := [1], recorded := .sum "no".toList }]
+      | _ => some [],
+    pkginfoTar := fun _ => none }
+
+def toyH : Hashes :=
+  { sha1 := fun b => 'a' :: b.map Char.ofNat, sha256 := fun b => 'b' :: b.map Char.ofNat }
+
+theorem toyG_local : toyG.Local := by
+  intro bs n d h
+  match bs, h with
+  | 7 :: x :: y :: rest, h =>
+    simp [memberAt, toyG] at h
+    obtain ⟨rfl, rfl⟩ := h
+    simp [memberAt, toyG]
+  | [], h => simp [memberAt, toyG] at h
+  | [_], h => simp [memberAt, toyG] at h
+  | [_, _], h => simp [memberAt, toyG] at h
+  | 0 :: _ :: _ :: _, h => simp [memberAt, toyG] at h
+  | (n + 8) :: _ :: _ :: _, h => simp [memberAt, toyG] at h
+  | 1 :: _ :: _ :: _, h => simp [memberAt, toyG] at h
+  | 2 :: _ :: _ :: _, h => simp [memberAt, toyG] at h
+  | 3 :: _ :: _ :: _, h => simp [memberAt, toyG] at h
+  | 4 :: _ :: _ :: _, h => simp [memberAt, toyG] at h
+  | 5 :: _ :: _ :: _, h => simp [memberAt, toyG] at h
+  | 6 :: _ :: _ :: _, h => simp [memberAt, toyG] at h
+
+/-- a signed package of three members and a data section of two gzip members is accepted by the repaired algorithm,
+cut where the format says -/
+example : ∃ o, expandStream toyG toyH Impl.slowChunk true [7,1,0, 7,2,2, 7,5,5, 7,4,4] = .ok o ∧
+    o.signed = true ∧ o.sigFile = some [7,1,0] ∧ o.controlFile = [7,2,2] ∧ o.packageFile = [7,5,5, 7,4,4] ∧
+    o.controlHash = toyH.sha1 [7,2,2] ∧ o.packageHash = toyH.sha256 [7,5,5, 7,4,4] ∧ o.tarFile = [5,5,4,4] :=
+  ⟨_, rfl, rfl, rfl, rfl, rfl, rfl, rfl, rfl⟩
+
+/-- the pinned end of the loop: a source of TWO members whose first starts with a `.SIGN.` header is taken for an
+unsigned package — the "control" hash is the SHA-1 of the signature member, the "data" hash a SHA-1 (not a SHA-256) of
+the control member, and `checkSums` never ran: a file whose record does not match is handed to the installer -/
+theorem pinned_accepts_unchecked_stream :
+    ∃ o r, expandStream toyG toyH Impl.slowChunk false [7,1,0, 7,6,6] = .ok o ∧ ranges toyG [7,1,0, 7,6,6] = some r ∧
+      o.checked = false ∧ checkSums (libOf toyG toyH) o.files = false ∧
+      o.controlFile ≠ r.control ∧ o.packageHash ≠ toyH.sha256 o.packageFile :=
+  ⟨_, _, rfl, rfl, rfl, by decide, by decide, by decide⟩
+
+/-- so the full statement is false for the pinned algorithm -/
+theorem pinned_stream_not_exact : ¬ StreamExact false := by
+  intro h
+  obtain ⟨r, e⟩ := h toyG toyH toyG_local [7,1,0, 7,6,6] _ rfl
+  have := e.checked
+  revert this
+  decide
+
+theorem repaired_refuses_unchecked_stream :
+    expandStream toyG toyH Impl.slowChunk true [7,1,0, 7,6,6] = .error .nodata := rfl
+
+/-- reads of SIX bytes before the data section (any size above one does it, given a suitable source): the member after
+the control member is pulled with it, lands in the control file and in the control hash and is never seen by the loop —
+the control hash covers two members, the data hash starts one member late.  (A pulled tail that is NOT a whole member
+is noticed later, by `ControlData`, which gunzips the whole control file.)  With one-byte reads the same source is cut
+where the format says. -/
+theorem read_ahead_hashes_beyond_control :
+    ∃ o r o1, expandStream toyG toyH 6 true [7,2,2, 7,3,3, 7,5,5] = .ok o ∧ ranges toyG [7,2,2, 7,3,3, 7,5,5] = some r ∧
+      r.control = [7,2,2] ∧ o.controlFile = [7,2,2, 7,3,3] ∧ o.controlHash = toyH.sha1 [7,2,2, 7,3,3] ∧
+      r.data = [7,3,3, 7,5,5] ∧ o.packageHash = toyH.sha256 [7,5,5] ∧
+      expandStream toyG toyH Impl.slowChunk true [7,2,2, 7,3,3, 7,5,5] = .ok o1 ∧
+      o1.controlHash = toyH.sha1 [7,2,2] ∧ o1.packageHash = toyH.sha256 [7,3,3, 7,5,5] := by
+  refine ⟨_, _, _, rfl, rfl, ?_, ?_, ?_, ?_, ?_, rfl, ?_, ?_⟩ <;> decide
+
+/-- `Split` on the signed toy package -/
+example : splitParts toyG [7,1,0, 7,2,2, 7,5,5, 7,4,4] = .ok [[7,1,0], [7,2,2], [7,5,5, 7,4,4]] := rfl
+
 end Apko.C05Split
